@@ -507,11 +507,32 @@ def r11b(ctx):
         sbb, am, other = arms[0]
         for v, tgt in am.items():
             all_arms.add(v)
-            # what makes link(2) itself refuse: the link count of the retained file, the mount, the owner
-            if tgt != other and arm_reaches(tgt, r'MetadataExt.*::nlink$|pathconf|Metadata::nlink$|MetadataExt.*::uid$|get_mount_point$'):
+            # what makes link(2) itself refuse: first of all the link count of the retained file (EMLINK); the mount and the owner (protected_hardlinks) besides
+            if tgt != other and arm_reaches(tgt, r'MetadataExt.*::nlink$|pathconf|Metadata::nlink$'):
                 covered.add(v)
             if tgt != other and arm_reaches(tgt, r'nix::unistd::(access|faccessat|eaccess)$|^libc::(access|faccessat|euidaccess)$'):
                 unlink_tested.add(v)
+    # dedupe on Linux clones INTO the existing file: it opens it for writing first (read-only files of archives, a program being executed: ETXTBSY)
+    reflink_probe = False
+    owner_tested = set()
+    if arms:
+        sbb, am, other = arms[0]
+        for v, tgt in am.items():
+            if v == 'RefLink' and tgt != other and arm_reaches(tgt, r'^std::fs::OpenOptions::open$|nix::unistd::(access|faccessat)$'):
+                # (an access() of the directory alone does not count: the probe has to be about the file - a write-mode open is)
+                reflink_probe = arm_reaches(tgt, r'^std::fs::OpenOptions::open$')
+            if tgt != other and arm_reaches(tgt, r'nix::unistd::geteuid$|^libc::geteuid$|MetadataExt.*::uid$'):
+                owner_tested.add(v)
+    ctx.check(reflink_probe, rule, cp.path + '|RefLink|overwrite-predicted', cp.where(), 'a RefLink command is announced only if the duplicate can be opened for writing (probe open, nothing written)',
+              'the lock step falls back to a read-only descriptor for files that cannot be opened for writing (D41, D52) - enough for remove / link / move, which need the directory only - but the Linux '
+              '`dedupe` opens the duplicate for writing as its first step: for a 0444 file of the user, or a program being executed, `dedupe --dry-run` prints and counts the file and the real run '
+              'fails with "Permission denied" / "Text file busy"')
+    adt_ = lib.adts.get('dedupe::FsCommand')
+    variants_ = {v['name'] for v in adt_['variants']} if adt_ else set()
+    ctx.check(bool(variants_) and owner_tested >= variants_, rule, cp.path + '|sticky-directory-predicted', cp.where(), 'the owner of the file and of its directory are looked at (sticky directories) for every command',
+              'write permission to the directory is not the whole rule for unlink / rename: in a sticky directory (/tmp, shared drwxrwxrwt folders) the caller must own the file or the directory (missing for: '
+              '%s) - for every duplicate in /tmp that belongs to someone else --dry-run prints the command and counts the file, the real run fails with "Operation not permitted", and `move` copies the '
+              'whole file first' % ', '.join(sorted(variants_ - owner_tested)))
     # every operation unlinks or renames away the file it drops: that takes write permission to ITS directory, which can be seen beforehand
     adt = lib.adts.get('dedupe::FsCommand')
     variants = {v['name'] for v in adt['variants']} if adt else all_arms
